@@ -284,9 +284,33 @@ def r19_python(chk):
         check_binding(chk, 'R19.5', PANEL, fc, 'Panel.calc_cA', calls[0], kernel_sig(panelk.MODELS[model], 'fcA'),
                       {'aeromu': 'aeromu', 'panel': 'self', 'size': {'self.size', 'size', 'self.get_size()'}, 'row0': {'0', 'row0'}, 'col0': {'0', 'col0'}},
                       'fcA call vs %s signature' % model)
-    muls = [n for n in ast.walk(fc) if isinstance(n, (ast.Assign, ast.AugAssign)) and any(isinstance(c, ast.Constant) and isinstance(c.value, complex) for c in ast.walk(n))]
-    ok = len(muls) == 1 and norm(muls[0]) in ('cA=cA*(0+1j)', 'cA=cA*1j', 'cA*=1j', 'cA=1j*cA', 'cA*=(0+1j)')
-    chk.ob('R19.5', ok, PANEL, 'Panel.calc_cA', 'imaginary unit applied once', expected='cA = cA*1j exactly once', got=[norm(x) for x in muls])
+    # the value stored in self.cA, with temporaries substituted (vcheck/symval.py) and the symmetrisation wrappers removed:
+    # exactly the kernel result times the imaginary unit
+    from .symval import Flow
+    import re as _re
+    fl = Flow(fc)
+    fl.run()
+    vals = set()
+    for tgt, vs, node in fl.stores:
+        if tgt.replace(' ', '') == 'self.cA':
+            vals |= vs
+    texts = set()
+    for v in vals:
+        t = v.replace(' ', '')
+        for _ in range(4):
+            t2 = _re.sub(r'^finalize_symmetric_matrix\((.*)\)$', r'\1', t)
+            t2 = _re.sub(r'^csr_matrix\(make_symmetric\((.*)\)\)$', r'\1', t2)
+            t2 = _re.sub(r'^\((.*)\)$', lambda mm: mm.group(1) if mm.group(1).count('(') == mm.group(1).count(')') and not _re.search(r'^[^()]*\)', mm.group(1)) else mm.group(0), t2)
+            if t2 == t:
+                break
+            t = t2
+        texts.add(t)
+    unit = r'(\(0\+1j\)|1j)'
+    call = r'[\w\.\[\]\'\"]*fcA\([^()]*(\([^()]*\)[^()]*)*\)'
+    ok = bool(texts) and all(_re.match(r'^\(?%s\)?\*%s$' % (call, unit), t) or _re.match(r'^%s\*\(?%s\)?$' % (unit, call), t)
+                            or _re.match(r'^\(\(?%s\)?\)Mult\(%s\)$' % (call, unit), t) for t in texts)
+    chk.ob('R19.5', ok, PANEL, 'Panel.calc_cA', 'imaginary unit applied once', expected='self.cA = symmetrised(fcA(...) * 1j): the kernel result times the imaginary unit, once',
+           got=sorted(texts)[:3])
     pyrules.check_finalize_path(chk, 'R19.5', PANEL, 'Panel', 'calc_cA', 'cA')
     # R19.4 every call of calc_cA / calc_kA in the package binds against the signature
     for rel, cls in ((PANEL, 'Panel'), (BAY, 'StiffPanelBay')):
